@@ -1,6 +1,6 @@
 """BOUNDED stand-in (never counted as proved) for the last clause of C16: "metadata generated from an entity's own configuration
 loads back to the same endpoints and keys".  SP / IdP configurations are generated over a grid (endpoint lists written in
-the three documented spellings -- location string, (location, binding), (location, binding, index) --, one or several
+the documented spellings -- location string, (location, binding), (location, binding, index), dictionary; indexes 0, 1, 65535, given as number or text, explicit next to automatic --, one or several
 bindings per service, zero to two logout endpoints, signing certificate / additional certificates / encryption key pairs
 present or absent, metadata_key_usage, entity categories, valid_for); the real metadata.entity_descriptor turns each into a
 document; two such documents are loaded TOGETHER into one real MetadataStore; every lookup the library offers for those
@@ -43,7 +43,12 @@ def run(tier, seed):
                 [('https://%s/acs/post' % host, POST, None, 'pair'), ('https://%s/acs/redirect' % host, REDIR, None, 'pair'),
                  ('https://%s/acs/post2' % host, POST, None, 'pair')],
                 [('https://%s/acs/a' % host, POST, 5, 'triple'), ('https://%s/acs/b' % host, ARTIFACT, 2, 'triple')],
-                [('https://%s/acs/default' % host, POST, None, 'string')]]
+                [('https://%s/acs/default' % host, POST, None, 'string')],
+                # boundary indexes (0, a large one, one given as text), the dictionary spelling, explicit next to automatic
+                [('https://%s/acs/zero' % host, POST, 0, 'triple'), ('https://%s/acs/one' % host, ARTIFACT, 1, 'triple'),
+                 ('https://%s/acs/auto' % host, REDIR, None, 'pair')],
+                [('https://%s/acs/d0' % host, POST, 0, 'dict'), ('https://%s/acs/d65535' % host, REDIR, 65535, 'dict'),
+                 ('https://%s/acs/dtext' % host, POST, '7', 'dict'), ('https://%s/acs/dauto' % host, POST, None, 'dict')]]
         else:
             main, sets = 'single_sign_on_service', [
                 [('https://%s/sso/redirect' % host, REDIR, None, 'pair')],
@@ -73,6 +78,11 @@ def run(tier, seed):
     def conf_of(spec):
         def spell(e):
             loc, binding, index, how = e
+            if how == 'dict':
+                d = {'location': loc, 'binding': binding}
+                if index is not None:
+                    d['index'] = index
+                return d
             return loc if how == 'string' else (loc, binding) if how == 'pair' else (loc, binding, index)
         conf = {'entityid': spec['id'], 'xmlsec_binary': sys.executable,
                 'service': {spec['role']: {'endpoints': dict((s, [spell(e) for e in es]) for s, es in spec['endpoints'].items())}}}
